@@ -290,6 +290,14 @@ def l3_outputs(thorough):
     for c in (top2 // 4, top2 // 2 + 3, 3 * top2 // 4):
         outs.append((f"2d-2cpu-{c}", 2, 3, 1, t2, 2, [0, c, top2], "hilbert"))
     outs.append(("2d-3cpu", 2, 3, 1, t2, 3, [0, 70, 150, top2], "hilbert"))
+    # 2-D / 1-D outputs with levelmin = 3 and several domains: a pre-selection that prunes in fewer than 3 dimensions
+    # must use the 2-D / 1-D curve
+    f2 = [(1, c) for c in itertools.product(range(2), repeat=2)] + [(2, c) for c in itertools.product(range(4), repeat=2)]
+    outs.append(("2d-lm3-3cpu", 2, 3, 3, f2, 3, [0, 70, 150, top2], "hilbert"))
+    outs.append(("2d-lm3-5cpu", 2, 3, 3, f2, 5, [0, 40, 99, 160, 201, top2], "hilbert"))
+    outs.append(("2d-lm3-L4-7cpu", 2, 4, 3, f2 + [(3, (2, 5)), (3, (6, 1)), (3, (7, 7))], 7, [0, 140, 300, 420, 600, 777, 900, 1024], "hilbert"))
+    f1 = [(1, (0,)), (1, (1,))] + [(2, (c,)) for c in range(4)]
+    outs.append(("1d-lm3-4cpu", 1, 3, 3, f1, 4, [0, 3, 8, 13, 16], "hilbert"))
     t1 = [(1, (0,)), (1, (1,)), (2, (1,))]
     top1 = 2**4
     for c in (4, 8, 11):
